@@ -5,39 +5,73 @@ Import ListNotations.
 Open Scope Z_scope.
 
 (* ------------------------------------------------------------------ idle_reset_time as a function of time *)
-Lemma irt_fold_mono rs : forall a a' t t', a <= a' -> t <= t' ->
-  fold_left (fun acc r => if r <=? t then Z.max acc r else acc) rs a <=
-  fold_left (fun acc r => if r <=? t' then Z.max acc r else acc) rs a'.
-Proof.
-  induction rs as [|r rs IH]; intros a a' t t' Ha Ht; cbn [fold_left]; [lia|].
-  apply IH; [|lia].
-  destruct (Z.leb_spec r t), (Z.leb_spec r t'); lia.
-Qed.
+Section Foldv.
+  Variable vis : Z -> Z -> bool.
+  Hypothesis vis_mono : forall r t t', t <= t' -> vis r t = true -> vis r t' = true.
+
+  Lemma foldv_mono rs : forall a a' t t', a <= a' -> t <= t' -> foldv vis rs a t <= foldv vis rs a' t'.
+  Proof.
+    unfold foldv. induction rs as [|r rs IH]; intros a a' t t' Ha Ht; cbn [fold_left]; [lia|].
+    apply IH; [|lia].
+    destruct (vis r t) eqn:E1; [rewrite (vis_mono r t t' Ht E1); lia|]. destruct (vis r t'); lia.
+  Qed.
+
+  Lemma foldv_ge_acc rs : forall a t, a <= foldv vis rs a t.
+  Proof.
+    unfold foldv. induction rs as [|r rs IH]; intros a t; cbn [fold_left]; [lia|].
+    etransitivity; [|apply IH]. destruct (vis r t); lia.
+  Qed.
+
+  Lemma foldv_ge_in rs : forall a t r, In r rs -> vis r t = true -> r <= foldv vis rs a t.
+  Proof.
+    induction rs as [|r0 rs IH]; intros a t r Hin Hr; [destruct Hin|].
+    destruct Hin as [->|Hin].
+    - unfold foldv. cbn [fold_left]. rewrite Hr. etransitivity; [|apply foldv_ge_acc]. lia.
+    - unfold foldv. cbn [fold_left]. apply IH; assumption.
+  Qed.
+
+  Lemma foldv_in rs : forall a t, foldv vis rs a t = a \/ In (foldv vis rs a t) rs.
+  Proof.
+    induction rs as [|r rs IH]; intros a t; [left; reflexivity|].
+    change (foldv vis (r :: rs) a t) with (foldv vis rs (if vis r t then Z.max a r else a) t).
+    destruct (IH (if vis r t then Z.max a r else a) t) as [E|Hin].
+    - rewrite E. destruct (vis r t); [|left; reflexivity].
+      destruct (Z.max_spec a r) as [[_ ->]|[_ ->]]; [right; left; reflexivity|left; reflexivity].
+    - right; right; exact Hin.
+  Qed.
+End Foldv.
+
+Lemma leb_vis_mono : forall r t t', t <= t' -> (r <=? t) = true -> (r <=? t') = true.
+Proof. intros r t t' H H1. apply Z.leb_le in H1. apply Z.leb_le. lia. Qed.
+Lemma ltb_vis_mono : forall r t t', t <= t' -> (r <? t) = true -> (r <? t') = true.
+Proof. intros r t t' H H1. apply Z.ltb_lt in H1. apply Z.ltb_lt. lia. Qed.
 
 Lemma irt_mono e t t' : t <= t' -> irt e t <= irt e t'.
-Proof. intro H. unfold irt. apply irt_fold_mono; lia. Qed.
-
-Lemma irt_fold_ge_acc rs : forall a t,
-  a <= fold_left (fun acc r => if r <=? t then Z.max acc r else acc) rs a.
 Proof.
-  induction rs as [|r rs IH]; intros a t; cbn [fold_left]; [lia|].
-  etransitivity; [|apply IH]. destruct (Z.leb_spec r t); lia.
-Qed.
-
-Lemma irt_fold_ge_in rs : forall a t r, In r rs -> r <= t ->
-  r <= fold_left (fun acc r => if r <=? t then Z.max acc r else acc) rs a.
-Proof.
-  induction rs as [|r0 rs IH]; intros a t r Hin Hr; [destruct Hin|].
-  cbn [fold_left]. destruct Hin as [->|Hin].
-  - destruct (Z.leb_spec r t); [|lia]. etransitivity; [|apply irt_fold_ge_acc]. lia.
-  - apply IH; assumption.
+  intro H. unfold irt. apply (foldv_mono _ ltb_vis_mono); [|exact H]. apply (foldv_mono _ leb_vis_mono); lia.
 Qed.
 
 Lemma irt_ge_irt0 e t : v_irt0 e <= irt e t.
-Proof. apply irt_fold_ge_acc. Qed.
+Proof. unfold irt. etransitivity; [|apply foldv_ge_acc]. apply foldv_ge_acc. Qed.
 
+(* an early change at instant r is seen from r on ... *)
 Lemma irt_ge_reset e t r : In r (v_resets e) -> r <= t -> r <= irt e t.
-Proof. apply irt_fold_ge_in. Qed.
+Proof.
+  intros Hin Hr. unfold irt. etransitivity; [|apply foldv_ge_acc].
+  apply foldv_ge_in; [exact Hin|]. apply Z.leb_le. exact Hr.
+Qed.
+
+(* ... a late one strictly after r *)
+Lemma irt_ge_late e t r : In r (v_late e) -> r < t -> r <= irt e t.
+Proof. intros Hin Hr. unfold irt. apply foldv_ge_in; [exact Hin|]. apply Z.ltb_lt. exact Hr. Qed.
+
+Lemma irt_in e t : irt e t = v_irt0 e \/ In (irt e t) (v_resets e ++ v_late e).
+Proof.
+  unfold irt. destruct (foldv_in Z.ltb (v_late e) (foldv Z.leb (v_resets e) (v_irt0 e) t) t) as [E|Hin].
+  - rewrite E. destruct (foldv_in Z.leb (v_resets e) (v_irt0 e) t) as [E'|Hin]; [left; exact E'|].
+    right. apply in_or_app. left. exact Hin.
+  - right. apply in_or_app. right. exact Hin.
+Qed.
 
 Lemma stopped_mono e t t' : t <= t' -> stopped e t = true -> stopped e t' = true.
 Proof.
@@ -176,7 +210,7 @@ Lemma exec_wf c h t en inv hend h2 :
   exec c h t en = (inv, hend, h2) ->
   wf_cyc c (mkcyc t inv hend (hend + Z.max 0 (e_plat en)) en (finished h2) (h_failure h2) (h_delayed h2)).
 Proof.
-  unfold exec, wf_cyc, expected_delayed. cbn [y_start y_hend y_pend y_en y_inv y_done y_failed y_delayed].
+  unfold exec, wf_cyc, expected_delayed, retry_delay. cbn [y_start y_hend y_pend y_en y_inv y_done y_failed y_delayed].
   assert (Hfd : forall x, h_failure x = true -> finished x = true)
     by (intros x Hx; unfold finished; rewrite Hx; apply orb_true_r).
   destruct (negb (awakened h t)).
@@ -189,11 +223,11 @@ Proof.
   split; [lia|]. split; [lia|]. split; [reflexivity|]. split; [reflexivity|].
   split; [|split; [|apply Hfd]].
   - intros _. unfold finished, with_outcome, classify; cbn [h_success h_failure h_delayed].
-    destruct (e_out en) as [|[d|]| |]; try destruct (c_errors c);
+    destruct (e_out en) as [|[d|]| | |[d|]]; try destruct (c_errors c);
     repeat match goal with |- context [if ?b then _ else _] => destruct b end;
     cbn [orb]; intros; try discriminate; repeat split; try discriminate; try reflexivity.
   - intros _. unfold finished, with_outcome, classify; cbn [h_success h_failure h_delayed].
-    destruct (e_out en) as [|[d|]| |]; try destruct (c_errors c);
+    destruct (e_out en) as [|[d|]| | |[d|]]; try destruct (c_errors c);
     repeat match goal with |- context [if ?b then _ else _] => destruct b end;
     cbn [orb]; intros; try discriminate; auto.
 Qed.
@@ -233,7 +267,6 @@ Lemma loop_unfold fuel c e script now h :
   loop fuel c e script now h =
   if stopped e now then ([], FStopped now)
   else
-    let h1 := reset_if_succeeded h now in
     match pre_wait fuel c e now with
     | (evs0, WEnd f) => (evs0, f)
     | (evs0, WGo t) =>
@@ -241,12 +274,12 @@ Lemma loop_unfold fuel c e script now h :
         else match script with
              | [] => (evs0, FOut t)
              | en :: rest =>
-                 let '(inv, hend, h2) := exec c h1 t en in
+                 let '(inv, hend, h2) := exec c (reset_state h t) t en in
                  let y := mkcyc t inv hend (hend + Z.max 0 (e_plat en)) en (finished h2) (h_failure h2) (h_delayed h2) in
                  match post fuel c e y h2 with
                  | (evs1, WEnd f) => (evs0 ++ ECyc y :: evs1, f)
                  | (evs1, WGo t') =>
-                     let '(evs2, f) := loop fuel c e rest t' h2 in
+                     let '(evs2, f) := loop fuel c e rest t' (Some h2) in
                      (evs0 ++ ECyc y :: evs1 ++ evs2, f)
                  end
              end
@@ -256,6 +289,31 @@ Proof. destruct script; reflexivity. Qed.
 Lemma loop_stopped_nil fuel c e script now h :
   stopped e now = true -> cycles (fst (loop fuel c e script now h)) = [].
 Proof. intro H. rewrite loop_unfold, H. reflexivity. Qed.
+
+(* the first cycle of a loop that begins with a fresh handler state *)
+Lemma loop_head_fresh fuel c e : forall script now h y ys,
+  (forall t, reset_state h t = fresh t) ->
+  cycles (fst (loop fuel c e script now h)) = y :: ys -> y_inv y = run_allowed c.
+Proof.
+  intros script now h y ys Hfresh. rewrite loop_unfold.
+  destruct (stopped e now); [discriminate|]. cbv zeta.
+  destruct (pre_wait fuel c e now) as [evs0 [t|f]] eqn:Epw;
+    [|cbn [fst]; rewrite (pre_wait_cycles _ _ _ _ _ _ Epw); discriminate].
+  destruct (stopped e t); [cbn [fst]; rewrite (pre_wait_cycles _ _ _ _ _ _ Epw); discriminate|].
+  destruct script as [|en rest]; [cbn [fst]; rewrite (pre_wait_cycles _ _ _ _ _ _ Epw); discriminate|].
+  rewrite Hfresh. unfold exec, run_allowed. cbn [awakened sleeping finished fresh h_success h_failure h_delayed h_started h_retries orb negb andb].
+  rewrite Z.sub_diag.
+  assert (Hhead : forall inv hend h2 evs' (f : final),
+    cycles (evs0 ++ ECyc (mkcyc t inv hend (hend + Z.max 0 (e_plat en)) en (finished h2) (h_failure h2) (h_delayed h2)) :: evs') = y :: ys ->
+    y_inv y = inv /\ y_start y = t).
+  { intros inv hend h2 evs' f E. rewrite cycles_app, (pre_wait_cycles _ _ _ _ _ _ Epw) in E. cbn [app cycles] in E.
+    injection E as <- _. auto. }
+  destruct (hits (c_timeout c) 0) eqn:Eto;
+    [|destruct (hits (c_retries c) 0) eqn:Ere];
+    match goal with |- context [post fuel c e ?yy ?hh] => destruct (post fuel c e yy hh) as [evs1 [t'|f]] end;
+    try (destruct (loop fuel c e rest t' _) as [evs2 f2]); cbn [fst]; intro E;
+    apply (Hhead _ _ _ _ (FOut 0)) in E; destruct E as [-> _]; reflexivity.
+Qed.
 
 Lemma loop_chain fuel c e : forall script now h,
   chain c e now (cycles (fst (loop fuel c e script now h))).
@@ -268,23 +326,26 @@ Proof.
     destruct (pre_wait fuel c e now) as [evs0 [t|f]] eqn:Epw;
       [|cbn [fst]; rewrite (pre_wait_cycles _ _ _ _ _ _ Epw); constructor].
     destruct (stopped e t) eqn:Est; [cbn [fst]; rewrite (pre_wait_cycles _ _ _ _ _ _ Epw); constructor|].
-    destruct (exec c (reset_if_succeeded h now) t en) as [[inv hend] h2] eqn:Eex.
+    destruct (exec c (reset_state h t) t en) as [[inv hend] h2] eqn:Eex.
     pose proof (exec_wf _ _ _ _ _ _ _ Eex) as Hwf.
     pose proof (pre_wait_spec _ _ _ _ _ _ Epw Est) as Hidle.
     set (y := mkcyc t inv hend (hend + Z.max 0 (e_plat en)) en (finished h2) (h_failure h2) (h_delayed h2)) in *.
     destruct (post fuel c e y h2) as [evs1 [t'|f]] eqn:Epost.
-    + specialize (IH t' h2).
-      destruct (loop fuel c e rest t' h2) as [evs2 f2] eqn:El. cbn [fst] in *.
+    + specialize (IH t' (Some h2)).
+      destruct (loop fuel c e rest t' (Some h2)) as [evs2 f2] eqn:El. cbn [fst] in *.
       rewrite cycles_app, (pre_wait_cycles _ _ _ _ _ _ Epw). cbn [app cycles].
       rewrite cycles_app, (post_cycles _ _ _ _ _ _ _ Epost). cbn [app].
       destruct (cycles evs2) as [|y2 ys] eqn:Ecy.
       * apply chain_one; assumption.
       * assert (Hst' : stopped e t' = false).
         { destruct (stopped e t') eqn:Es'; [|reflexivity].
-          pose proof (loop_stopped_nil fuel c e rest t' h2 Es') as Hn. rewrite El in Hn. cbn [fst] in Hn.
+          pose proof (loop_stopped_nil fuel c e rest t' (Some h2) Es') as Hn. rewrite El in Hn. cbn [fst] in Hn.
           rewrite Hn in Ecy. discriminate. }
         eapply chain_cons; try eassumption.
-        eapply post_spec; try eassumption; reflexivity.
+        -- eapply post_spec; try eassumption; reflexivity.
+        -- cbn [y_done y_failed y]. intros Hdn Hfl.
+           eapply (loop_head_fresh fuel c e rest t' (Some h2));
+             [intro; unfold reset_state; rewrite Hdn, Hfl; reflexivity|rewrite El; exact Ecy].
     + cbn [fst]. rewrite cycles_app, (pre_wait_cycles _ _ _ _ _ _ Epw). cbn [app cycles].
       rewrite (post_cycles _ _ _ _ _ _ _ Epost). apply chain_one; assumption.
 Qed.
@@ -300,10 +361,10 @@ Lemma timer_chain fuel c e spawn script :
 Proof.
   unfold timer_cycles, timer_run, initial_base. destruct (c_initial c) as [d|].
   - destruct (sleep e spawn d) as [t|] eqn:Esl; [|constructor].
-    pose proof (loop_chain fuel c e script t (fresh t)) as Hc.
-    destruct (loop fuel c e script t (fresh t)) as [evs f] eqn:El. cbn [fst cycles sleep_ev] in *.
+    pose proof (loop_chain fuel c e script t None) as Hc.
+    destruct (loop fuel c e script t None) as [evs f] eqn:El. cbn [fst cycles sleep_ev] in *.
     destruct (stopped e t) eqn:Est.
-    + pose proof (loop_stopped_nil fuel c e script t (fresh t) Est) as Hn. rewrite El in Hn. cbn [fst] in Hn.
+    + pose proof (loop_stopped_nil fuel c e script t None Est) as Hn. rewrite El in Hn. cbn [fst] in Hn.
       rewrite Hn. constructor.
     + apply sleep_woke in Esl. destruct Esl as [_ Hx]. rewrite <- (Hx Est). exact Hc.
   - replace (spawn + Z.max 0 0) with spawn by lia. apply loop_chain.
@@ -312,7 +373,7 @@ Qed.
 (* ------------------------------------------------------------------ consequences of a chain *)
 Lemma chain_starts_ge c e now ys : chain c e now ys -> forall y, In y ys -> now <= y_start y.
 Proof.
-  induction 1 as [now|now y Hi Hw Hs|now y b y2 ys Hi Hw Hs Hn Hc IH]; intros y' Hin.
+  induction 1 as [now|now y Hi Hw Hs|now y b y2 ys Hi Hw Hs Hn Hr Hc IH]; intros y' Hin.
   - destruct Hin.
   - destruct Hin as [<-|[]]. destruct Hi; lia.
   - destruct Hin as [<-|Hin]; [destruct Hi; lia|].
@@ -322,7 +383,7 @@ Qed.
 Lemma chain_each c e now ys : chain c e now ys -> forall y, In y ys ->
   wf_cyc c y /\ clear e (c_idle c) (y_start y) /\ stopped e (y_start y) = false.
 Proof.
-  induction 1 as [now|now y Hi Hw Hs|now y b y2 ys Hi Hw Hs Hn Hc IH]; intros y' Hin.
+  induction 1 as [now|now y Hi Hw Hs|now y b y2 ys Hi Hw Hs Hn Hr Hc IH]; intros y' Hin.
   - destruct Hin.
   - destruct Hin as [<-|[]]. destruct Hi as (_ & Hcl & _). auto.
   - destruct Hin as [<-|Hin]; [destruct Hi as (_ & Hcl & _); auto|]. apply IH; exact Hin.
@@ -330,13 +391,14 @@ Qed.
 
 Lemma chain_consecutive c e now ys : chain c e now ys -> forall k y1 y2,
   nth_error ys k = Some y1 -> nth_error ys (S k) = Some y2 ->
-  exists b, next_base c e y1 b /\ idle_ok e (c_idle c) b (y_start y2).
+  exists b, next_base c e y1 b /\ idle_ok e (c_idle c) b (y_start y2) /\
+            (y_done y1 = true -> y_failed y1 = false -> y_inv y2 = run_allowed c).
 Proof.
-  induction 1 as [now|now y Hi Hw Hs|now y b y2 ys Hi Hw Hs Hn Hc IH]; intros k y1 y2' H1 H2.
+  induction 1 as [now|now y Hi Hw Hs|now y b y2 ys Hi Hw Hs Hn Hr Hc IH]; intros k y1 y2' H1 H2.
   - destruct k; discriminate.
   - destruct k as [|[|k]]; discriminate.
   - destruct k as [|k].
-    + cbn in H1, H2. injection H1 as <-. injection H2 as <-. exists b. split; [exact Hn|].
+    + cbn in H1, H2. injection H1 as <-. injection H2 as <-. exists b. split; [exact Hn|]. split; [|exact Hr].
       inversion Hc; subst; assumption.
     + cbn [nth_error] in H1. apply (IH k y1 y2'); [exact H1|exact H2].
 Qed.
@@ -344,7 +406,7 @@ Qed.
 Lemma chain_no_overlap c e now ys : chain c e now ys -> forall i j yi yj, (i < j)%nat ->
   nth_error ys i = Some yi -> nth_error ys j = Some yj -> y_pend yi <= y_start yj.
 Proof.
-  induction 1 as [now|now y Hi Hw Hs|now y b y2 ys Hi Hw Hs Hn Hc IH]; intros i j yi yj Hij H1 H2.
+  induction 1 as [now|now y Hi Hw Hs|now y b y2 ys Hi Hw Hs Hn Hr Hc IH]; intros i j yi yj Hij H1 H2.
   - destruct i; discriminate.
   - destruct i as [|i]; [|destruct i; discriminate]. destruct j as [|[|j]]; [lia|discriminate|discriminate].
   - destruct i as [|i].
@@ -378,7 +440,7 @@ Section Laws.
     idle_ok e (c_idle c) (y_pend y1 + Z.max 0 i) (y_start y2).
   Proof.
     intros H1 H2 Hd Hi Hs. pose proof (timer_chain fuel c e spawn script) as Hc. fold ys in Hc.
-    destruct (chain_consecutive _ _ _ _ Hc _ _ _ H1 H2) as (b & Hn & Hok).
+    destruct (chain_consecutive _ _ _ _ Hc _ _ _ H1 H2) as (b & Hn & Hok & Hrun).
     unfold next_base in Hn. rewrite Hd, Hi, Hs in Hn. subst b. exact Hok.
   Qed.
 
@@ -399,7 +461,7 @@ Section Laws.
   Proof.
     intros H1 H2 Hd Hi Hs Hpos. pose proof (timer_chain fuel c e spawn script) as Hc. fold ys in Hc.
     destruct (chain_each _ _ _ _ Hc _ (nth_error_In _ _ H1)) as ((Ha & Hb & _) & _).
-    destruct (chain_consecutive _ _ _ _ Hc _ _ _ H1 H2) as (b & Hn & Hok).
+    destruct (chain_consecutive _ _ _ _ Hc _ _ _ H1 H2) as (b & Hn & Hok & Hrun).
     unfold next_base in Hn. rewrite Hd, Hi, Hs in Hn. destruct Hn as [_ ->].
     set (p := y_pend y1 - y_start y1) in *.
     pose proof (Z.div_mod p i ltac:(lia)) as Hdm.
@@ -413,23 +475,19 @@ Section Laws.
   Lemma law_after_failure k y1 y2 :
     nth_error ys k = Some y1 -> nth_error ys (S k) = Some y2 ->
     y_inv y1 = true -> y_done y1 = false ->
-    (forall d, e_out (y_en y1) = OTemp (Some d) ->
+    (forall d, retry_delay c (e_out (y_en y1)) = Some d ->
         y_hend y1 + d <= y_start y2 /\ idle_ok e (c_idle c) (Z.max (y_pend y1) (y_hend y1 + d)) (y_start y2)) /\
-    (e_out (y_en y1) = OTemp None -> idle_ok e (c_idle c) (y_pend y1) (y_start y2)) /\
-    (e_out (y_en y1) = OArb ->
-        y_hend y1 + c_backoff c <= y_start y2 /\
-        idle_ok e (c_idle c) (Z.max (y_pend y1) (y_hend y1 + c_backoff c)) (y_start y2)).
+    (retry_delay c (e_out (y_en y1)) = None -> idle_ok e (c_idle c) (y_pend y1) (y_start y2)).
   Proof.
     intros H1 H2 Hinv Hd. pose proof (timer_chain fuel c e spawn script) as Hc. fold ys in Hc.
     destruct (chain_each _ _ _ _ Hc _ (nth_error_In _ _ H1)) as ((Ha & Hb & _ & _ & Hdl & _) & _).
     destruct (Hdl Hinv Hd) as (Hdl' & _).
-    destruct (chain_consecutive _ _ _ _ Hc _ _ _ H1 H2) as (b & Hn & Hok).
+    destruct (chain_consecutive _ _ _ _ Hc _ _ _ H1 H2) as (b & Hn & Hok & Hrun).
     unfold next_base in Hn. rewrite Hd, Hdl' in Hn. unfold expected_delayed in Hn.
-    split; [|split].
+    split.
     - intros d H. rewrite H in Hn. subst b. split; [destruct Hok; lia|exact Hok].
     - intro H. rewrite H in Hn. subst b.
       replace (Z.max (y_pend y1) (y_pend y1)) with (y_pend y1) in Hok by lia. exact Hok.
-    - intro H. rewrite H in Hn. subst b. split; [destruct Hok; lia|exact Hok].
   Qed.
 
   Lemma law_initial_delay d y : c_initial c = Some d -> In y ys -> spawn + d <= y_start y.
@@ -444,14 +502,16 @@ Section Laws.
     destruct ys as [|y0 l]; [discriminate|]. cbn in H0. injection H0 as ->. inversion Hc; subst; assumption.
   Qed.
 
-  Lemma law_idle i y r : c_idle c = Some i -> In y ys ->
-    (r = v_irt0 e \/ In r (v_resets e)) -> r <= y_start y -> r + i <= y_start y.
+  Lemma law_idle i y : c_idle c = Some i -> In y ys ->
+    (forall r, r = v_irt0 e \/ In r (v_resets e) -> r <= y_start y -> r + i <= y_start y) /\
+    (forall r, In r (v_late e) -> r < y_start y -> r + i <= y_start y).
   Proof.
-    intros Hi Hin Hr Hle. pose proof (timer_chain fuel c e spawn script) as Hc. fold ys in Hc.
+    intros Hi Hin. pose proof (timer_chain fuel c e spawn script) as Hc. fold ys in Hc.
     destruct (chain_each _ _ _ _ Hc _ Hin) as (_ & Hcl & _). rewrite Hi in Hcl. cbn [clear] in Hcl.
-    assert (r <= irt e (y_start y)).
-    { destruct Hr as [->|Hr]; [apply irt_ge_irt0|apply irt_ge_reset; assumption]. }
-    lia.
+    split; intros r Hr Hle.
+    - assert (r <= irt e (y_start y)) by (destruct Hr as [->|Hr]; [apply irt_ge_irt0|apply irt_ge_reset; assumption]).
+      lia.
+    - pose proof (irt_ge_late e (y_start y) r Hr Hle). lia.
   Qed.
 
   Lemma law_one_shot k y : c_interval c = None -> c_idle c = None ->
@@ -459,7 +519,7 @@ Section Laws.
   Proof.
     intros Hi Hidle H1 Hd. pose proof (timer_chain fuel c e spawn script) as Hc. fold ys in Hc.
     destruct (nth_error ys (S k)) as [y2|] eqn:H2.
-    - destruct (chain_consecutive _ _ _ _ Hc _ _ _ H1 H2) as (b & Hn & _).
+    - destruct (chain_consecutive _ _ _ _ Hc _ _ _ H1 H2) as (b & Hn & _ & _).
       unfold next_base in Hn. rewrite Hd, Hi, Hidle in Hn. destruct Hn.
     - apply nth_error_None in H2. assert (k < List.length ys)%nat by (apply nth_error_Some; congruence). lia.
   Qed.
@@ -469,7 +529,7 @@ Section Laws.
     y_pend y1 <= y_start y2 /\ y_start y1 < irt e (y_start y2).
   Proof.
     intros Hi Hidle H1 H2 Hd. pose proof (timer_chain fuel c e spawn script) as Hc. fold ys in Hc.
-    destruct (chain_consecutive _ _ _ _ Hc _ _ _ H1 H2) as (b & Hn & Hok).
+    destruct (chain_consecutive _ _ _ _ Hc _ _ _ H1 H2) as (b & Hn & Hok & Hrun).
     unfold next_base in Hn. rewrite Hd, Hi, Hidle in Hn. destruct Hn as [Hp Hr]. destruct Hok as [Hb _].
     pose proof (irt_mono e _ _ Hb). lia.
   Qed.
@@ -494,11 +554,11 @@ Proof.
     destruct (pre_wait fuel c e now) as [evs0 [t|f]] eqn:Epw;
       [|exists 0%nat; cbn [fst]; rewrite (pre_wait_cycles _ _ _ _ _ _ Epw); reflexivity].
     destruct (stopped e t); [exists 0%nat; cbn [fst]; rewrite (pre_wait_cycles _ _ _ _ _ _ Epw); reflexivity|].
-    destruct (exec c (reset_if_succeeded h now) t en) as [[inv hend] h2].
+    destruct (exec c (reset_state h t) t en) as [[inv hend] h2].
     set (y := mkcyc t inv hend (hend + Z.max 0 (e_plat en)) en (finished h2) (h_failure h2) (h_delayed h2)) in *.
     destruct (post fuel c e y h2) as [evs1 [t'|f]] eqn:Epost.
-    + destruct (IH t' h2) as [n Hn].
-      destruct (loop fuel c e rest t' h2) as [evs2 f2]. cbn [fst] in *.
+    + destruct (IH t' (Some h2)) as [n Hn].
+      destruct (loop fuel c e rest t' (Some h2)) as [evs2 f2]. cbn [fst] in *.
       exists (S n). rewrite cycles_app, (pre_wait_cycles _ _ _ _ _ _ Epw). cbn [app cycles].
       rewrite cycles_app, (post_cycles _ _ _ _ _ _ _ Epost). cbn [app map firstn]. rewrite Hn. reflexivity.
     + exists 1%nat. cbn [fst]. rewrite cycles_app, (pre_wait_cycles _ _ _ _ _ _ Epw). cbn [app cycles].
@@ -510,8 +570,8 @@ Lemma timer_script_prefix fuel c e spawn script :
 Proof.
   unfold timer_cycles, timer_run. destruct (c_initial c) as [d|].
   - destruct (sleep e spawn d) as [t|]; [|exists 0%nat; reflexivity].
-    destruct (loop_script_prefix fuel c e script t (fresh t)) as [n Hn].
-    destruct (loop fuel c e script t (fresh t)) as [evs f]. exists n. exact Hn.
+    destruct (loop_script_prefix fuel c e script t None) as [n Hn].
+    destruct (loop fuel c e script t None) as [evs f]. exists n. exact Hn.
   - apply loop_script_prefix.
 Qed.
 
@@ -535,11 +595,11 @@ Proof.
 Qed.
 
 (* ------------------------------------------------------------------ witnesses *)
-Definition wit_env_plain : env := mkenv 0 [] None 100000.
+Definition wit_env_plain : env := mkenv 0 [] None 100000 [].
 
 (* sharp + idle: an essential change during the sleep moves the run off the grid of the first start *)
 Definition wit_cfg_sharp_idle : cfg := mkcfg (Some 1000) true (Some 2000) None None None 60000 ETemporary.
-Definition wit_env_reset : env := mkenv 0 [2500] None 100000.
+Definition wit_env_reset : env := mkenv 0 [2500] None 100000 [].
 Definition wit_script_ok2 : list entry := [mkentry 0 0 OOk; mkentry 0 0 OOk].
 
 Lemma sharp_global_grid_refuted :
@@ -558,7 +618,7 @@ Qed.
 
 (* ------------------------------------------------------------------ non-vacuity: the hypotheses of the laws are met by runs *)
 Definition ex_cfg_interval : cfg := mkcfg (Some 1000) false (Some 2000) (Some 3000) None None 250 ETemporary.
-Definition ex_env : env := mkenv 0 [500; 4000] (Some 30000) 100000.
+Definition ex_env : env := mkenv 0 [500; 4000] (Some 30000) 100000 [].
 Definition ex_script : list entry :=
   [mkentry 250 125 OOk; mkentry 1500 0 (OTemp (Some 500)); mkentry 0 0 OArb; mkentry 1000 0 OOk; mkentry 0 0 OOk].
 
@@ -594,7 +654,7 @@ Example ex_sharp_run :
 Proof. vm_compute. reflexivity. Qed.
 
 Definition ex_cfg_idle_only : cfg := mkcfg None false (Some 2000) None None None 60000 ETemporary.
-Definition ex_env_idle_only : env := mkenv 0 [500; 6125; 9000] None 100000.
+Definition ex_env_idle_only : env := mkenv 0 [500; 6125; 9000] None 100000 [].
 
 Example ex_idle_only_run :
   map (fun y => (y_start y, y_pend y)) (timer_cycles 50 ex_cfg_idle_only ex_env_idle_only 0 ex_script_sharp) =
@@ -609,18 +669,7 @@ Example ex_one_shot_run :
 Proof. vm_compute. reflexivity. Qed.
 
 (* ------------------------------------------------------------------ fuel: the idle wait needs at most |changes|+2 iterations *)
-Lemma irt_fold_in rs : forall a t,
-  fold_left (fun acc r => if r <=? t then Z.max acc r else acc) rs a = a \/
-  In (fold_left (fun acc r => if r <=? t then Z.max acc r else acc) rs a) rs.
-Proof.
-  induction rs as [|r rs IH]; intros a t; cbn [fold_left]; [left; reflexivity|].
-  destruct (IH (if r <=? t then Z.max a r else a) t) as [E|Hin].
-  - rewrite E. destruct (r <=? t); [|left; reflexivity].
-    destruct (Z.max_spec a r) as [[_ ->]|[_ ->]]; [right; left; reflexivity|left; reflexivity].
-  - right; right; exact Hin.
-Qed.
-
-Definition later (e : env) (x : Z) : nat := List.length (filter (fun r => x <? r) (v_resets e)).
+Definition later (e : env) (x : Z) : nat := List.length (filter (fun r => x <? r) (v_resets e ++ v_late e)).
 
 Lemma filter_len_le l x y : x <= y ->
   (List.length (filter (fun r => (y <? r)%Z) l) <= List.length (filter (fun r => (x <? r)%Z) l))%nat.
@@ -639,9 +688,9 @@ Proof.
   - specialize (IH Hin). destruct (Z.ltb_spec y r), (Z.ltb_spec x r); cbn [List.length]; lia.
 Qed.
 
-Lemma later_le_length e x : (later e x <= List.length (v_resets e))%nat.
+Lemma later_le_length e x : (later e x <= List.length (v_resets e ++ v_late e))%nat.
 Proof.
-  unfold later. induction (v_resets e) as [|r l IH]; cbn [filter List.length]; [lia|].
+  unfold later. induction (v_resets e ++ v_late e) as [|r l IH]; cbn [filter List.length]; [lia|].
   destruct (x <? r); cbn [List.length]; lia.
 Qed.
 
@@ -660,13 +709,12 @@ Proof.
   apply negb_true_iff in Es1. apply Z.ltb_lt in Elt1.
   pose proof (sleep_woke _ _ _ _ Esl) as (_ & Hx). specialize (Hx Es1).
   assert (Hgt : irt e now < irt e t1) by lia.
-  assert (Hin : In (irt e t1) (v_resets e)).
-  { destruct (irt_fold_in (v_resets e) (v_irt0 e) t1) as [E0|Hin]; [|exact Hin].
-    fold (irt e t1) in E0. pose proof (irt_ge_irt0 e now). lia. }
-  pose proof (filter_len_lt (v_resets e) _ _ Hgt Hin) as Hlt. unfold later in *. lia.
+  assert (Hin : In (irt e t1) (v_resets e ++ v_late e)).
+  { destruct (irt_in e t1) as [E0|Hin]; [|exact Hin]. pose proof (irt_ge_irt0 e now). lia. }
+  pose proof (filter_len_lt (v_resets e ++ v_late e) _ _ Hgt Hin) as Hlt. unfold later in *. lia.
 Qed.
 
-Lemma idle_wait_fuel_enough e i fuel now evs t : (List.length (v_resets e) + 2 <= fuel)%nat ->
+Lemma idle_wait_fuel_enough e i fuel now evs t : (List.length (v_resets e ++ v_late e) + 2 <= fuel)%nat ->
   idle_wait fuel e i now <> (evs, WEnd (FFuel t)).
 Proof.
   intro H. apply idle_wait_fuel_aux; [lia|]. intros _. pose proof (later_le_length e (irt e now)). lia.
@@ -678,28 +726,28 @@ Proof.
   intro Hf. unfold exec, awakened, finished. rewrite Hf, orb_true_r. reflexivity.
 Qed.
 
-Lemma reset_failed h now : h_failure h = true -> reset_if_succeeded h now = h.
-Proof. intro Hf. unfold reset_if_succeeded. rewrite Hf, andb_false_r. reflexivity. Qed.
+Lemma reset_failed h t : h_failure h = true -> reset_state (Some h) t = h.
+Proof. intro Hf. unfold reset_state. rewrite Hf, andb_false_r. reflexivity. Qed.
 
 (* shape of one iteration of the main loop *)
 Lemma loop_decomp fuel c e en rest now h :
   cycles (fst (loop fuel c e (en :: rest) now h)) = [] \/
   exists t inv hend h2 tail,
-    exec c (reset_if_succeeded h now) t en = (inv, hend, h2) /\
+    exec c (reset_state h t) t en = (inv, hend, h2) /\
     cycles (fst (loop fuel c e (en :: rest) now h)) =
       mkcyc t inv hend (hend + Z.max 0 (e_plat en)) en (finished h2) (h_failure h2) (h_delayed h2) :: tail /\
-    (tail = [] \/ exists t', tail = cycles (fst (loop fuel c e rest t' h2))).
+    (tail = [] \/ exists t', tail = cycles (fst (loop fuel c e rest t' (Some h2)))).
 Proof.
   rewrite loop_unfold.
   destruct (stopped e now); [left; reflexivity|]. cbv zeta.
   destruct (pre_wait fuel c e now) as [evs0 [t|f]] eqn:Epw;
     [|left; cbn [fst]; apply (pre_wait_cycles _ _ _ _ _ _ Epw)].
   destruct (stopped e t); [left; cbn [fst]; apply (pre_wait_cycles _ _ _ _ _ _ Epw)|].
-  destruct (exec c (reset_if_succeeded h now) t en) as [[inv hend] h2] eqn:Eex.
+  destruct (exec c (reset_state h t) t en) as [[inv hend] h2] eqn:Eex.
   right. exists t, inv, hend, h2.
   set (y := mkcyc t inv hend (hend + Z.max 0 (e_plat en)) en (finished h2) (h_failure h2) (h_delayed h2)) in *.
   destruct (post fuel c e y h2) as [evs1 [t'|f]] eqn:Epost.
-  - destruct (loop fuel c e rest t' h2) as [evs2 f2] eqn:El.
+  - destruct (loop fuel c e rest t' (Some h2)) as [evs2 f2] eqn:El.
     exists (cycles evs2). split; [exact Eex|]. split.
     + cbn [fst]. rewrite cycles_app, (pre_wait_cycles _ _ _ _ _ _ Epw). cbn [app cycles].
       rewrite cycles_app, (post_cycles _ _ _ _ _ _ _ Epost). reflexivity.
@@ -717,13 +765,13 @@ Proof.
 Qed.
 
 Lemma loop_failed_sticky fuel c e : forall script now h, h_failure h = true ->
-  forall y, In y (cycles (fst (loop fuel c e script now h))) -> y_inv y = false /\ y_failed y = true.
+  forall y, In y (cycles (fst (loop fuel c e script now (Some h)))) -> y_inv y = false /\ y_failed y = true.
 Proof.
   induction script as [|en rest IH]; intros now h Hf y Hin.
   - rewrite loop_nil_script in Hin. destruct Hin.
-  - destruct (loop_decomp fuel c e en rest now h) as [E|(t & inv & hend & h2 & tail & Eex & E & Ht)];
+  - destruct (loop_decomp fuel c e en rest now (Some h)) as [E|(t & inv & hend & h2 & tail & Eex & E & Ht)];
       rewrite E in Hin; [destruct Hin|].
-    rewrite (reset_failed _ _ Hf), (exec_failed _ _ _ _ Hf) in Eex. injection Eex as <- <- <-.
+    rewrite (reset_failed _ t Hf), (exec_failed _ _ _ _ Hf) in Eex. injection Eex as <- <- <-.
     destruct Hin as [<-|Hin]; [cbn; auto|].
     destruct Ht as [->|(t' & ->)]; [destruct Hin|]. eapply IH; eassumption.
 Qed.
@@ -742,7 +790,7 @@ Proof.
     destruct i as [|i].
     + cbn in Hi. injection Hi as <-. cbn [y_failed] in Hf.
       eapply loop_failed_sticky; [exact Hf|]. eapply nth_error_In; exact Hj.
-    + cbn [nth_error] in Hi. eapply (IH t' h2 i j); try eassumption. lia.
+    + cbn [nth_error] in Hi. eapply (IH t' (Some h2) i j); try eassumption. lia.
 Qed.
 
 Lemma law_no_run_after_final_failure fuel c e spawn script i j yi yj : (i < j)%nat ->
@@ -752,8 +800,8 @@ Lemma law_no_run_after_final_failure fuel c e spawn script i j yi yj : (i < j)%n
 Proof.
   unfold timer_cycles, timer_run. destruct (c_initial c) as [d|].
   - destruct (sleep e spawn d) as [t|]; [|intros _ H; destruct i; discriminate].
-    pose proof (loop_no_run_after_failure fuel c e script t (fresh t) i j yi yj) as L.
-    destruct (loop fuel c e script t (fresh t)) as [evs f]. cbn [fst cycles sleep_ev] in *. exact L.
+    pose proof (loop_no_run_after_failure fuel c e script t None i j yi yj) as L.
+    destruct (loop fuel c e script t None) as [evs f]. cbn [fst cycles sleep_ev] in *. exact L.
   - apply loop_no_run_after_failure.
 Qed.
 
@@ -762,24 +810,23 @@ Lemma law_after_failure_full fuel c e spawn script k y1 y2 :
   nth_error (timer_cycles fuel c e spawn script) k = Some y1 ->
   nth_error (timer_cycles fuel c e spawn script) (S k) = Some y2 ->
   y_inv y1 = true -> y_inv y2 = true ->
-  (forall d, e_out (y_en y1) = OTemp (Some d) -> y_hend y1 + d <= y_start y2) /\
-  (e_out (y_en y1) = OArb -> c_errors c <> EIgnored -> y_hend y1 + c_backoff c <= y_start y2).
+  e_out (y_en y1) <> OOk -> (e_out (y_en y1) = OArb -> c_errors c <> EIgnored) ->
+  y_done y1 = false /\
+  (forall d, retry_delay c (e_out (y_en y1)) = Some d ->
+     y_hend y1 + d <= y_start y2 /\ idle_ok e (c_idle c) (Z.max (y_pend y1) (y_hend y1 + d)) (y_start y2)) /\
+  (retry_delay c (e_out (y_en y1)) = None -> idle_ok e (c_idle c) (y_pend y1) (y_start y2)).
 Proof.
-  intros H1 H2 Hi1 Hi2.
+  intros H1 H2 Hi1 Hi2 Hno Hna.
   assert (Hnf : y_failed y1 = false).
   { destruct (y_failed y1) eqn:Ef; [|reflexivity].
     destruct (law_no_run_after_final_failure fuel c e spawn script k (S k) y1 y2 ltac:(lia) H1 Ef H2) as [Hx _].
     congruence. }
   pose proof (timer_chain fuel c e spawn script) as Hc.
   destruct (chain_each _ _ _ _ Hc _ (nth_error_In _ _ H1)) as ((_ & _ & _ & _ & _ & Hcls & _) & _).
-  assert (Hnd : e_out (y_en y1) <> OOk -> (e_out (y_en y1) = OArb -> c_errors c <> EIgnored) -> y_done y1 = false).
-  { intros Hno Hna. destruct (y_done y1) eqn:Ed; [|reflexivity].
+  assert (Hdn : y_done y1 = false).
+  { destruct (y_done y1) eqn:Ed; [|reflexivity].
     destruct (Hcls Hi1 eq_refl Hnf) as [Ho|[Ho Hm]]; [contradiction|]. exfalso. exact (Hna Ho Hm). }
-  split.
-  - intros d Hd. assert (Hdn : y_done y1 = false) by (apply Hnd; rewrite Hd; [discriminate|discriminate]).
-    destruct (law_after_failure fuel c e spawn script k y1 y2 H1 H2 Hi1 Hdn) as (L & _ & _). apply (L d Hd).
-  - intros Ha Hm. assert (Hdn : y_done y1 = false) by (apply Hnd; [rewrite Ha; discriminate|intros _; exact Hm]).
-    destruct (law_after_failure fuel c e spawn script k y1 y2 H1 H2 Hi1 Hdn) as (_ & _ & L). apply (L Ha).
+  split; [exact Hdn|]. exact (law_after_failure fuel c e spawn script k y1 y2 H1 H2 Hi1 Hdn).
 Qed.
 
 (* witness that the hypotheses of law_no_run_after_final_failure are met: retries=1, the first arbitrary error is
@@ -794,6 +841,342 @@ Proof. vm_compute. reflexivity. Qed.
 
 (* idle-only timer whose stopper is set during the wait for the next change: the wait ends, the loop exits *)
 Example ex_idle_only_stop :
-  snd (timer_run 50 (mkcfg None false (Some 2000) None None None 60000 ETemporary) (mkenv 0 [500] (Some 4000) 100000) 0
+  snd (timer_run 50 (mkcfg None false (Some 2000) None None None 60000 ETemporary) (mkenv 0 [500] (Some 4000) 100000 []) 0
          [mkentry 250 125 OOk; mkentry 0 0 OOk]) = FStopped 4000.
+Proof. vm_compute. reflexivity. Qed.
+
+(* ------------------------------------------------------------------ why a timer ends: only for the modelled causes *)
+Definition final_ok (c : cfg) (e : env) (f : final) : Prop :=
+  match f with
+  | FExited _ => c_interval c = None /\ c_idle c = None
+  | FStopped t => stopped e t = true
+  | FStall t => stopped e t = false /\ c_interval c = None /\ exists i, c_idle c = Some i /\ i <= 0
+  | FCrash _ => c_interval c = Some 0 /\ c_sharp c = true
+  | FOut t => stopped e t = false
+  | FHorizon _ | FFuel _ => True
+  end.
+
+Lemma idle_wait_end fuel e i : forall now evs f,
+  idle_wait fuel e i now = (evs, WEnd f) -> (exists t, f = FFuel t) \/ (exists t, f = FHorizon t).
+Proof.
+  induction fuel as [|n IH]; intros now evs f; cbn [idle_wait].
+  - intro E; injection E as _ <-. left; eexists; reflexivity.
+  - destruct (negb (stopped e now) && (now - irt e now <? i)); [|discriminate].
+    destruct (sleep e now (irt e now + i - now)) as [t|].
+    + destruct (idle_wait n e i t) as [evs' r'] eqn:Er. intro E; injection E as _ ->. eapply IH; eassumption.
+    + intro E; injection E as _ <-. right; eexists; reflexivity.
+Qed.
+
+Lemma idle_only_wait_end fuel e i started : forall now evs f,
+  idle_only_wait fuel e i started now = (evs, WEnd f) ->
+  (exists t, f = FFuel t) \/ (exists t, f = FHorizon t) \/ (exists t, f = FStall t /\ stopped e t = false /\ i <= 0).
+Proof.
+  induction fuel as [|n IH]; intros now evs f; cbn [idle_only_wait].
+  - intro E; injection E as _ <-. left; eexists; reflexivity.
+  - destruct ((irt e now <=? started) && negb (stopped e now)) eqn:Ec; [|discriminate].
+    apply andb_true_iff in Ec. destruct Ec as [_ Es]. apply negb_true_iff in Es.
+    destruct (Z.leb_spec i 0).
+    + intro E; injection E as _ <-. right; right. exists now. auto.
+    + destruct (sleep e now i) as [t|].
+      * destruct (idle_only_wait n e i started t) as [evs' r'] eqn:Er. intro E; injection E as _ ->.
+        eapply IH; eassumption.
+      * intro E; injection E as _ <-. right; left; eexists; reflexivity.
+Qed.
+
+Lemma post_end fuel c e y h evs f : post fuel c e y h = (evs, WEnd f) -> final_ok c e f /\ (forall t, f <> FOut t) /\ (forall t, f <> FStopped t).
+Proof.
+  unfold post, one_sleep.
+  destruct (negb (finished h)).
+  { destruct (sleep e (y_pend y) (state_delay h (y_pend y))); [discriminate|].
+    intro E; injection E as _ <-. cbn. repeat split; discriminate. }
+  destruct (c_interval c) as [i|] eqn:Ei.
+  - destruct (c_sharp c) eqn:Es.
+    + destruct (Z.eqb_spec i 0) as [->|Hi].
+      * intro E; injection E as _ <-. cbn. repeat split; auto; discriminate.
+      * destruct (sleep e (y_pend y) (i - (y_pend y - y_start y) mod i)); [discriminate|].
+        intro E; injection E as _ <-. cbn. repeat split; discriminate.
+    + destruct (sleep e (y_pend y) i); [discriminate|]. intro E; injection E as _ <-. cbn. repeat split; discriminate.
+  - destruct (c_idle c) as [i|] eqn:Eid.
+    + intro E. apply idle_only_wait_end in E.
+      destruct E as [[t ->]|[[t ->]|(t & -> & Hs & Hi)]]; cbn; repeat split; try discriminate; auto.
+      exists i; auto.
+    + intro E; injection E as _ <-. cbn. repeat split; auto; discriminate.
+Qed.
+
+Lemma pre_wait_end fuel c e now evs f : pre_wait fuel c e now = (evs, WEnd f) ->
+  (exists t, f = FFuel t) \/ (exists t, f = FHorizon t).
+Proof. unfold pre_wait. destruct (c_idle c); [apply idle_wait_end|discriminate]. Qed.
+
+Lemma loop_final_ok fuel c e : forall script now h, final_ok c e (snd (loop fuel c e script now h)).
+Proof.
+  induction script as [|en rest IH]; intros now h; rewrite loop_unfold.
+  - destruct (stopped e now) eqn:Es; [exact Es|]. cbv zeta.
+    destruct (pre_wait fuel c e now) as [evs0 [t|f]] eqn:Epw.
+    + destruct (stopped e t) eqn:Est; cbn; assumption.
+    + cbn [snd]. destruct (pre_wait_end _ _ _ _ _ _ Epw) as [[t ->]|[t ->]]; exact I.
+  - destruct (stopped e now) eqn:Es; [exact Es|]. cbv zeta.
+    destruct (pre_wait fuel c e now) as [evs0 [t|f]] eqn:Epw;
+      [|cbn [snd]; destruct (pre_wait_end _ _ _ _ _ _ Epw) as [[t ->]|[t ->]]; exact I].
+    destruct (stopped e t) eqn:Est; [exact Est|].
+    destruct (exec c (reset_state h t) t en) as [[inv hend] h2].
+    set (y := mkcyc t inv hend (hend + Z.max 0 (e_plat en)) en (finished h2) (h_failure h2) (h_delayed h2)).
+    destruct (post fuel c e y h2) as [evs1 [t'|f]] eqn:Epost.
+    + specialize (IH t' (Some h2)). destruct (loop fuel c e rest t' (Some h2)) as [evs2 f2]. exact IH.
+    + cbn [snd]. apply (post_end _ _ _ _ _ _ _ Epost).
+Qed.
+
+Lemma timer_final_ok fuel c e spawn script : final_ok c e (snd (timer_run fuel c e spawn script)).
+Proof.
+  unfold timer_run. destruct (c_initial c) as [d|]; [|apply loop_final_ok].
+  destruct (sleep e spawn d) as [t|]; [|exact I].
+  pose proof (loop_final_ok fuel c e script t None) as H.
+  destruct (loop fuel c e script t None) as [evs f]. exact H.
+Qed.
+
+(* ------------------------------------------------------------------ every recorded sleep is a genuine aiotime.sleep; none suspends after the stop *)
+Definition sleep_genuine (e : env) (x : ev) : Prop :=
+  match x with
+  | ECyc _ => True
+  | ESleep t d w => w = match sleep e t d with Woke u => Some u | PastHorizon => None end
+  end.
+
+Lemma idle_wait_genuine fuel e i : forall now evs r, idle_wait fuel e i now = (evs, r) -> Forall (sleep_genuine e) evs.
+Proof.
+  induction fuel as [|n IH]; intros now evs r; cbn [idle_wait].
+  - intro E; injection E as <- _; constructor.
+  - destruct (negb (stopped e now) && (now - irt e now <? i)); [|intro E; injection E as <- _; constructor].
+    destruct (sleep e now (irt e now + i - now)) as [t|] eqn:Esl.
+    + destruct (idle_wait n e i t) as [evs' r'] eqn:Er. intro E; injection E as <- _.
+      constructor; [cbn; rewrite Esl; reflexivity|eapply IH; eassumption].
+    + intro E; injection E as <- _. constructor; [cbn; rewrite Esl; reflexivity|constructor].
+Qed.
+
+Lemma idle_only_wait_genuine fuel e i started : forall now evs r,
+  idle_only_wait fuel e i started now = (evs, r) -> Forall (sleep_genuine e) evs.
+Proof.
+  induction fuel as [|n IH]; intros now evs r; cbn [idle_only_wait].
+  - intro E; injection E as <- _; constructor.
+  - destruct ((irt e now <=? started) && negb (stopped e now)); [|intro E; injection E as <- _; constructor].
+    destruct (i <=? 0); [intro E; injection E as <- _; constructor|].
+    destruct (sleep e now i) as [t|] eqn:Esl.
+    + destruct (idle_only_wait n e i started t) as [evs' r'] eqn:Er. intro E; injection E as <- _.
+      constructor; [cbn; rewrite Esl; reflexivity|eapply IH; eassumption].
+    + intro E; injection E as <- _. constructor; [cbn; rewrite Esl; reflexivity|constructor].
+Qed.
+
+Lemma sleep_ev_genuine e now d : sleep_genuine e (sleep_ev e now d).
+Proof. reflexivity. Qed.
+
+Lemma post_genuine fuel c e y h evs r : post fuel c e y h = (evs, r) -> Forall (sleep_genuine e) evs.
+Proof.
+  unfold post, one_sleep.
+  destruct (negb (finished h)); [intro E; injection E as <- _; repeat constructor|].
+  destruct (c_interval c) as [i|].
+  - destruct (c_sharp c).
+    + destruct (i =? 0); intro E; injection E as <- _; repeat constructor.
+    + intro E; injection E as <- _; repeat constructor.
+  - destruct (c_idle c) as [i|]; [apply idle_only_wait_genuine|intro E; injection E as <- _; constructor].
+Qed.
+
+Lemma pre_wait_genuine fuel c e now evs r : pre_wait fuel c e now = (evs, r) -> Forall (sleep_genuine e) evs.
+Proof.
+  unfold pre_wait. destruct (c_idle c); [apply idle_wait_genuine|intro E; injection E as <- _; constructor].
+Qed.
+
+Lemma loop_genuine fuel c e : forall script now h, Forall (sleep_genuine e) (fst (loop fuel c e script now h)).
+Proof.
+  induction script as [|en rest IH]; intros now h; rewrite loop_unfold.
+  - destruct (stopped e now); [constructor|]. cbv zeta.
+    destruct (pre_wait fuel c e now) as [evs0 [t|f]] eqn:Epw; [destruct (stopped e t)|]; cbn [fst];
+      apply (pre_wait_genuine _ _ _ _ _ _ Epw).
+  - destruct (stopped e now); [constructor|]. cbv zeta.
+    destruct (pre_wait fuel c e now) as [evs0 [t|f]] eqn:Epw; [|apply (pre_wait_genuine _ _ _ _ _ _ Epw)].
+    pose proof (pre_wait_genuine _ _ _ _ _ _ Epw) as H0.
+    destruct (stopped e t); [exact H0|].
+    destruct (exec c (reset_state h t) t en) as [[inv hend] h2].
+    set (y := mkcyc t inv hend (hend + Z.max 0 (e_plat en)) en (finished h2) (h_failure h2) (h_delayed h2)).
+    destruct (post fuel c e y h2) as [evs1 [t'|f]] eqn:Epost; pose proof (post_genuine _ _ _ _ _ _ _ Epost) as H1.
+    + specialize (IH t' (Some h2)). destruct (loop fuel c e rest t' (Some h2)) as [evs2 f2]. cbn [fst] in *.
+      apply Forall_app. split; [exact H0|]. constructor; [exact I|]. apply Forall_app. split; assumption.
+    + cbn [fst]. apply Forall_app. split; [exact H0|]. constructor; [exact I|exact H1].
+Qed.
+
+Lemma timer_genuine fuel c e spawn script : Forall (sleep_genuine e) (fst (timer_run fuel c e spawn script)).
+Proof.
+  unfold timer_run. destruct (c_initial c) as [d|]; [|apply loop_genuine].
+  destruct (sleep e spawn d) as [t|] eqn:Esl.
+  - pose proof (loop_genuine fuel c e script t None) as H.
+    destruct (loop fuel c e script t None) as [evs f]. cbn [fst] in *.
+    constructor; [cbn; rewrite Esl; reflexivity|exact H].
+  - cbn [fst]. constructor; [cbn; rewrite Esl; reflexivity|constructor].
+Qed.
+
+Lemma law_no_suspension_after_stop fuel c e spawn script t d w :
+  In (ESleep t d w) (fst (timer_run fuel c e spawn script)) -> stopped e t = true -> w = Some t.
+Proof.
+  intros Hin Hs. pose proof (timer_genuine fuel c e spawn script) as H. rewrite Forall_forall in H.
+  specialize (H _ Hin). cbn in H. rewrite H. unfold sleep. rewrite Hs. destruct (d <=? 0); reflexivity.
+Qed.
+
+(* a sleep that was not cut short by the stopper lasted exactly max(0, delay) *)
+Lemma law_sleep_exact fuel c e spawn script t d u :
+  In (ESleep t d (Some u)) (fst (timer_run fuel c e spawn script)) -> stopped e u = false -> u = t + Z.max 0 d.
+Proof.
+  intros Hin Hs. pose proof (timer_genuine fuel c e spawn script) as H. rewrite Forall_forall in H.
+  specialize (H _ Hin). cbn in H. destruct (sleep e t d) as [x|] eqn:E; [|discriminate].
+  injection H as ->. apply sleep_woke in E. destruct E as [_ Hx]. exact (Hx Hs).
+Qed.
+
+(* ------------------------------------------------------------------ the behaviour on a script is a prefix of the behaviour on any longer script *)
+Lemma loop_ext_done fuel c e more : forall script now h,
+  (forall t, snd (loop fuel c e script now h) <> FOut t) ->
+  loop fuel c e (script ++ more) now h = loop fuel c e script now h.
+Proof.
+  induction script as [|en rest IH]; intros now h Hno.
+  - cbn [app]. destruct more as [|en more]; [reflexivity|].
+    rewrite (loop_unfold _ _ _ (en :: more)). rewrite loop_unfold in Hno. rewrite (loop_unfold _ _ _ []).
+    destruct (stopped e now); [reflexivity|]. cbv zeta in *.
+    destruct (pre_wait fuel c e now) as [evs0 [t|f]]; [|reflexivity].
+    destruct (stopped e t); [reflexivity|]. exfalso. apply (Hno t). reflexivity.
+  - cbn [app]. rewrite (loop_unfold _ _ _ (en :: rest ++ more)), (loop_unfold _ _ _ (en :: rest)).
+    rewrite loop_unfold in Hno.
+    destruct (stopped e now); [reflexivity|]. cbv zeta in *.
+    destruct (pre_wait fuel c e now) as [evs0 [t|f]]; [|reflexivity].
+    destruct (stopped e t); [reflexivity|].
+    destruct (exec c (reset_state h t) t en) as [[inv hend] h2].
+    destruct (post fuel c e _ h2) as [evs1 [t'|f]]; [|reflexivity].
+    rewrite IH; [reflexivity|].
+    intros u Hu. apply (Hno u). destruct (loop fuel c e rest t' (Some h2)) as [evs2 f2]. exact Hu.
+Qed.
+
+Lemma loop_ext_out fuel c e en more : forall script now h evs t,
+  loop fuel c e script now h = (evs, FOut t) ->
+  exists y evs' f', loop fuel c e (script ++ en :: more) now h = (evs ++ ECyc y :: evs', f') /\
+                    y_start y = t /\ y_en y = en.
+Proof.
+  induction script as [|en0 rest IH]; intros now h evs t.
+  - cbn [app]. rewrite (loop_unfold _ _ _ []), (loop_unfold _ _ _ (en :: more)).
+    destruct (stopped e now); [discriminate|]. cbv zeta.
+    destruct (pre_wait fuel c e now) as [evs0 [u|f]] eqn:Epw.
+    + destruct (stopped e u); [discriminate|]. intro E; injection E as <- <-.
+      destruct (exec c (reset_state h u) u en) as [[inv hend] h2].
+      set (y := mkcyc u inv hend (hend + Z.max 0 (e_plat en)) en (finished h2) (h_failure h2) (h_delayed h2)).
+      destruct (post fuel c e y h2) as [evs1 [t'|f]].
+      * destruct (loop fuel c e more t' (Some h2)) as [evs2 f2]. exists y, (evs1 ++ evs2), f2. auto.
+      * exists y, evs1, f. auto.
+    + intro E; injection E as _ ->. destruct (pre_wait_end _ _ _ _ _ _ Epw) as [[x Hx]|[x Hx]]; discriminate.
+  - cbn [app]. rewrite (loop_unfold _ _ _ (en0 :: rest)), (loop_unfold _ _ _ (en0 :: rest ++ en :: more)).
+    destruct (stopped e now); [discriminate|]. cbv zeta.
+    destruct (pre_wait fuel c e now) as [evs0 [u|f]] eqn:Epw.
+    + destruct (stopped e u); [discriminate|].
+      destruct (exec c (reset_state h u) u en0) as [[inv hend] h2].
+      set (y0 := mkcyc u inv hend (hend + Z.max 0 (e_plat en0)) en0 (finished h2) (h_failure h2) (h_delayed h2)).
+      destruct (post fuel c e y0 h2) as [evs1 [t'|f]] eqn:Epost.
+      * destruct (loop fuel c e rest t' (Some h2)) as [evs2 f2] eqn:El. intro E; injection E as <- ->.
+        destruct (IH t' (Some h2) evs2 t El) as (y & evs' & f' & E' & Hs & He). rewrite E'.
+        exists y, evs', f'. split; [|auto]. f_equal.
+        rewrite <- !app_assoc. cbn [app]. rewrite <- app_assoc. reflexivity.
+      * intro E; injection E as _ ->. destruct (post_end _ _ _ _ _ _ _ Epost) as (_ & Hno & _). exfalso. apply (Hno t). reflexivity.
+    + intro E; injection E as _ ->. destruct (pre_wait_end _ _ _ _ _ _ Epw) as [[x Hx]|[x Hx]]; discriminate.
+Qed.
+
+Lemma law_final_not_out_stable fuel c e spawn script more :
+  (forall t, snd (timer_run fuel c e spawn script) <> FOut t) ->
+  timer_run fuel c e spawn (script ++ more) = timer_run fuel c e spawn script.
+Proof.
+  unfold timer_run. destruct (c_initial c) as [d|]; [|apply loop_ext_done].
+  destruct (sleep e spawn d) as [t|]; [|reflexivity]. intro Hno.
+  rewrite loop_ext_done; [reflexivity|].
+  intros u Hu. apply (Hno u). destruct (loop fuel c e script t None) as [evs f]. exact Hu.
+Qed.
+
+Lemma law_progress fuel c e spawn script t en more :
+  snd (timer_run fuel c e spawn script) = FOut t ->
+  exists y tail, timer_cycles fuel c e spawn (script ++ en :: more) = timer_cycles fuel c e spawn script ++ y :: tail /\
+                 y_start y = t /\ y_en y = en.
+Proof.
+  unfold timer_cycles, timer_run. destruct (c_initial c) as [d|].
+  - destruct (sleep e spawn d) as [u|]; [|discriminate].
+    destruct (loop fuel c e script u None) as [evs f] eqn:El. cbn [snd]. intros ->.
+    destruct (loop_ext_out fuel c e en more script u None evs t El) as (y & evs' & f' & E' & Hs & He).
+    rewrite E'. cbn [fst cycles sleep_ev]. exists y, (cycles evs'). rewrite cycles_app. auto.
+  - destruct (loop fuel c e script spawn None) as [evs f] eqn:El. cbn [snd]. intros ->.
+    destruct (loop_ext_out fuel c e en more script spawn None evs t El) as (y & evs' & f' & E' & Hs & He).
+    rewrite E'. cbn [fst]. exists y, (cycles evs'). rewrite cycles_app. auto.
+Qed.
+
+Lemma law_prefix_stable fuel c e spawn script more :
+  exists tail, timer_cycles fuel c e spawn (script ++ more) = timer_cycles fuel c e spawn script ++ tail.
+Proof.
+  destruct (snd (timer_run fuel c e spawn script)) as [t|t|t|t|t|t|t] eqn:Ef.
+  3: { destruct more as [|en more]; [exists []; rewrite !app_nil_r; reflexivity|].
+       destruct (law_progress fuel c e spawn script t en more Ef) as (y & tail & E & _). exists (y :: tail). exact E. }
+  all: exists []; rewrite app_nil_r; unfold timer_cycles; rewrite law_final_not_out_stable; [reflexivity|];
+       intros u; rewrite Ef; discriminate.
+Qed.
+
+(* ------------------------------------------------------------------ a due cycle with a fresh state IS a run (unless timeout/retries <= 0) *)
+Lemma law_run_after_success fuel c e spawn script k y1 y2 :
+  nth_error (timer_cycles fuel c e spawn script) k = Some y1 ->
+  nth_error (timer_cycles fuel c e spawn script) (S k) = Some y2 ->
+  y_done y1 = true -> y_failed y1 = false ->
+  y_inv y2 = run_allowed c.
+Proof.
+  intros H1 H2 Hd Hf. pose proof (timer_chain fuel c e spawn script) as Hc.
+  destruct (chain_consecutive _ _ _ _ Hc _ _ _ H1 H2) as (b & Hn & Hok & Hrun). auto.
+Qed.
+
+Lemma law_first_cycle_run fuel c e spawn script y :
+  nth_error (timer_cycles fuel c e spawn script) 0 = Some y -> y_inv y = run_allowed c.
+Proof.
+  unfold timer_cycles, timer_run. destruct (c_initial c) as [d|].
+  - destruct (sleep e spawn d) as [t|] eqn:Esl; [|discriminate].
+    destruct (loop fuel c e script t None) as [evs f] eqn:El. cbn [fst cycles sleep_ev].
+    destruct (cycles evs) as [|y0 ys] eqn:Ecy; [discriminate|]. cbn. intro E; injection E as ->.
+    eapply (loop_head_fresh fuel c e script t None); [reflexivity|rewrite El; exact Ecy].
+  - destruct (cycles (fst (loop fuel c e script spawn None))) as [|y0 ys] eqn:Ecy; [discriminate|].
+    cbn. intro E; injection E as ->.
+    eapply (loop_head_fresh fuel c e script spawn None); [reflexivity|exact Ecy].
+Qed.
+
+Lemma run_allowed_true c :
+  (c_timeout c = None \/ exists T, c_timeout c = Some T /\ 0 < T) ->
+  (c_retries c = None \/ exists N, c_retries c = Some N /\ 0 < N) -> run_allowed c = true.
+Proof.
+  intros Ht Hr. unfold run_allowed, hits.
+  destruct Ht as [->|(T & -> & HT)], Hr as [->|(N & -> & HN)]; cbn;
+    repeat match goal with |- context [?x <=? 0] => destruct (Z.leb_spec x 0); [lia|] end; reflexivity.
+Qed.
+
+(* every due run after a success, and the first one, is MADE whenever timeout > 0 and retries > 0 (or absent):
+   however long idling postponed it *)
+Lemma law_run_made fuel c e spawn script :
+  (c_timeout c = None \/ exists T, c_timeout c = Some T /\ 0 < T) ->
+  (c_retries c = None \/ exists N, c_retries c = Some N /\ 0 < N) ->
+  (forall y, nth_error (timer_cycles fuel c e spawn script) 0 = Some y -> y_inv y = true) /\
+  (forall k y1 y2, nth_error (timer_cycles fuel c e spawn script) k = Some y1 ->
+                   nth_error (timer_cycles fuel c e spawn script) (S k) = Some y2 ->
+                   y_done y1 = true -> y_failed y1 = false -> y_inv y2 = true).
+Proof.
+  intros Ht Hr. pose proof (run_allowed_true c Ht Hr) as Hra. split.
+  - intros y H0. rewrite (law_first_cycle_run _ _ _ _ _ _ H0). exact Hra.
+  - intros k y1 y2 H1 H2 Hd Hf. rewrite (law_run_after_success _ _ _ _ _ _ _ _ H1 H2 Hd Hf). exact Hra.
+Qed.
+
+(* regression (finding F1001, fixed in /repo 071710e): idle AND timeout set, an essential change shortly before a due
+   run -- the idle wait (1875 ms) outlasts the timeout (1000 ms); the run is made all the same, at 3000 *)
+Definition wit_cfg_idle_timeout : cfg := mkcfg (Some 1000) false (Some 2000) None None (Some 1000) 60000 ETemporary.
+Definition wit_env_idle_timeout : env := mkenv (-10000) [1000] None 100000 [].
+Definition wit_script_quick_ok : list entry := [mkentry 125 0 OOk; mkentry 125 0 OOk; mkentry 125 0 OOk].
+
+Example ex_idle_wait_not_counted :
+  map (fun y => (y_start y, y_inv y, y_failed y)) (timer_cycles 10 wit_cfg_idle_timeout wit_env_idle_timeout 0 wit_script_quick_ok) =
+  [(0, true, false); (3000, true, false); (4125, true, false)].
+Proof. vm_compute. reflexivity. Qed.
+
+(* @kopf.timer(interval=1, idle=4, timeout=1): the witness of F1001 (before the fix: never invoked) *)
+Example ex_f1001_witness :
+  map (fun y => (y_start y, y_inv y, y_failed y))
+      (timer_cycles 10 (mkcfg (Some 1000) false (Some 4000) None None (Some 1000) 60000 ETemporary) (mkenv 0 [] None 100000 []) 0 wit_script_quick_ok) =
+  [(4000, true, false); (5125, true, false); (6250, true, false)].
 Proof. vm_compute. reflexivity. Qed.
